@@ -1,7 +1,23 @@
 import GluonModel.Sexp
-open GluonModel
+import GluonModel.Comments
+open GluonModel GluonModel.Comments
+
+def q (l : List Char) : String := Sexp.quote (String.ofList l)
+
+def renderRun : Run → String
+  | .panic => "panic"
+  | .fuel => "fuel"
+  | .done its _ => "(items" ++ String.join (its.map (fun i => " " ++ q i)) ++ ")"
+
+def renderMixed (r : List (Option (List Char)) × Bool) : String :=
+  "(calls" ++ String.join (r.1.map (fun o => match o with | none => " none" | some i => " " ++ q i))
+    ++ (if r.2 then " panic" else "") ++ ")"
 
 def handle : List Sexp → String
-  | _ => "unimplemented"
+  | [.atom "fwd", .str s] => renderRun (forward s.toList)
+  | [.atom "rev", .str s] => renderRun (backward s.toList)
+  | [.atom "mix", .str s, .str pat] =>
+    renderMixed (mixed (pat.toList.map (· == 'f')) s.toList)
+  | _ => "bad-request"
 
 def main : IO Unit := driverLoop handle
